@@ -28,14 +28,14 @@ ASSUMPTIONS = [
 ]
 ANCHORS = ["dagrt.transform:fuse_two_dags", "dagrt.transform:fuse_two_phases",
            "dagrt.language:Assign.map_expressions"]
-MIN_NONTRIVIAL = {"quick": 250, "thorough": 6000}
+MIN_NONTRIVIAL = {"quick": 250, "thorough": 42000}
 REQUIRED_COUNTERS = {"quick": ["fusions", "statements_matched", "fused_steps_compared", "disagreeing_pairs"],
                      "thorough": ["fusions", "statements_matched", "fused_steps_compared", "disagreeing_pairs"]}
 SHARD_TIMEOUT = {"quick": 900, "thorough": 3400}
 
 
 def plan(tier, seed):
-    per = 110 if tier == "quick" else 1500
+    per = 110 if tier == "quick" else 15000
     return [{"seed": f"C16:{seed}:{k}", "count": per} for k in range(16)]
 
 
